@@ -239,7 +239,7 @@ static void write_reparse(long k, const ares_dns_record_t *rec, unsigned int fla
 /* b: build a record through the public setters */
 static void run_build(long k, const char *head, char *body)
 {
-  long               id = 0, fl = 0, op = 0, rc = 0;
+  long               id = 0, fl = 0, op = 0, rc = 0, pre = -1;
   ares_dns_record_t *rec = NULL;
   ares_status_t      st;
   char              *save = NULL, *unit;
@@ -247,7 +247,11 @@ static void run_build(long k, const char *head, char *body)
   size_t             sl = 0;
 
   stats[0] = 0;
-  sscanf(head, "b:%ld:%ld:%ld:%ld", &id, &fl, &op, &rc);
+  /* optional fifth field: also frame the record with ares_dns_write_buf_tcp into a buffer that already
+     holds [pre] octets */
+  if (sscanf(head, "b:%ld:%ld:%ld:%ld:%ld", &id, &fl, &op, &rc, &pre) < 5) {
+    pre = -1;
+  }
   st = ares_dns_record_create(&rec, (unsigned short)id, (unsigned short)fl, (ares_dns_opcode_t)op, (ares_dns_rcode_t)rc);
   for (unit = strtok_r(body, ";", &save); unit != NULL && st == ARES_SUCCESS; unit = strtok_r(NULL, ";", &save)) {
     char *fsave = unit;
@@ -372,6 +376,42 @@ static void run_build(long k, const char *head, char *body)
   printf("\n%ld S %s\n", k, stats);
   if (st == ARES_SUCCESS) {
     write_reparse(k, rec, 0);
+  }
+  if (st == ARES_SUCCESS && pre >= 0) {
+    ares_buf_t          *buf = ares_buf_create();
+    ares_dns_record_t   *rec2 = NULL;
+    ares_status_t        ts, vs;
+    const unsigned char *p;
+    size_t               blen = 0, start;
+    long                 i;
+    for (i = 0; i < pre; i++) {
+      ares_buf_append_byte(buf, (unsigned char)((i * 7 + 1) & 0xFF));
+    }
+    start = ares_buf_len(buf);
+    ts    = ares_dns_write_buf_tcp(rec, buf);
+    printf("%ld F %d ", k, (int)ts);
+    p = ares_buf_peek(buf, &blen);
+    if (ts == ARES_SUCCESS && p != NULL && blen >= start + 2) {
+      size_t flen = ((size_t)p[start] << 8) | p[start + 1];
+      puthex(p + start, blen - start);
+      if (flen == blen - start - 2) {
+        vs = ares_dns_parse(p + start + 2, flen, 0, &rec2);
+        printf("\n%ld G %d", k, (int)vs);
+        if (vs == ARES_SUCCESS) {
+          printf(" ");
+          dump_rec(rec2);
+        }
+      } else {
+        printf("\n%ld G -1 frame-length-mismatch prefix=%lu message=%lu", k, (unsigned long)flen, (unsigned long)(blen - start - 2));
+      }
+    } else if (ts == ARES_SUCCESS) {
+      printf("SHORT");
+    } else if (blen != start) {
+      printf("BUFFER-CHANGED-ON-ERROR");
+    }
+    printf("\n");
+    ares_buf_destroy(buf);
+    ares_dns_record_destroy(rec2);
   }
   ares_dns_record_destroy(rec);
 }
